@@ -38,6 +38,8 @@ TEXT = {
          "Rocq LTS model with in-Coq exhaustive exploration of finite instances; trace validation of implementation event logs against the extracted LTS; byte-equality correspondence"),
  "C06": ("Same LTS with fault plans (read error at any read index, out-of-range blocks): finite-instance theorems that every schedule terminates without deadlock in the outcome of the single-threaded reference. PARTIAL w.r.t. all W / all fault positions. Tie: PAR stream with injected faults x workers x perturbed schedules: result kind equal to single-threaded, no panic, no hang (timeout), no thread alive after return (/proc/self/task), event log accepted by the extracted LTS.",
          "Rocq LTS model with fault plans explored exhaustively for finite instances; fault-injection runs with trace validation"),
+ "C17": ("Theorems C17_streaminfo_new, C17_framebuf_with_size, C17_fill_interleaved, C17_fill_le_bytes_errors, C17_frame_entry, C17_stream_entry (both modes), C17_never_panics: each entry point's validation model accepts exactly the supported domain of the property text (arguments are unbounded naturals, so truncation wrap-arounds are covered) and has no panicking outcome. Tied by the API stream: boundary / wrap-around grid on the implementation (debug and release), verdict compared with the model and with an independent Python statement of the domain.",
+         "Rocq proof: exactness of the validation model of every entry point; boundary-grid correspondence incl. hang/panic detection"),
 }
 NOTE = ("Trusted: Coq 8.16.1 kernel, extraction with ExtrOcamlBasic only, OCaml driver, Rust harness, tools/*.py, "
         "and the hand-written model of the named source files, which is tied to /repo by differential testing "
